@@ -12,6 +12,8 @@ func init() { registry["C02"] = checkC02 }
 var universe18 = []string{
 	"d", "d-x", "d.c", "d0", "d x", "ad", "D", "a+b", "a(b", "a_b", "é",
 	"d/x", "d/y", "d/s/z", "d/s/t/u", "ad/x", "d x/f g", "d-x/x",
+	// names that EXTEND a directory's name and sort after "<dir>/" ('_' 0x5f, 'd' 0x64 > '/' 0x2f)
+	"d_old", "dd/x",
 }
 
 // realizable: no member is a proper directory prefix of another.
@@ -201,10 +203,10 @@ func c02Trans(c *Ctx, pre *Node, st Step, res *Result, post *State) ([]Violation
 }
 
 func checkC02(e *RunEnv) *CheckResult {
-	P := []string{"lib/x", "lib.go", "lib-old", "a b"}
+	P := []string{"lib/x", "lib.go", "lib-old", "a b", "lib_z", "libs/y"}
 	spec := &Spec{
 		Seeds: []Seed{{"S0", seedS0()}, {"S1lib", append(seedS0(), Write("lib/x", v1("lib/x")), Write("lib.go", v1("lib.go")), Run("add", "lib", "lib.go"), Run("commit", "-m", "c1"))}},
-		Depth: e.pick(5, 7),
+		Depth: e.pick(4, 6),
 		Steps: func(n *Node) []Step {
 			a := n.Abs()
 			t := nameSetTags(indexPaths(a))
@@ -221,7 +223,7 @@ func checkC02(e *RunEnv) *CheckResult {
 				}
 				steps = append(steps, Run("add", p).WithTags(t...), Run("rm", p).WithTags(t...), Run("restore", "--staged", p).WithTags(t...))
 			}
-			steps = append(steps, Run("add", "lib").WithTags(t...), Run("commit", "-m", "m1").WithTags(t...), Run("commit", "-m", "m2").WithTags(t...),
+			steps = append(steps, Run("add", "lib").WithTags(t...), Run("commit", "-m", "m1").WithTags(t...), Run("commit", "-m", "100% of m2 %s").WithTags(t...),
 				Run("branch", "b").WithTags(t...), Run("switch", "b").WithTags(t...), Run("switch", "main").WithTags(t...), Run("reset", "--mixed", "HEAD@{1}").WithTags(t...))
 			return steps
 		},
